@@ -108,7 +108,6 @@ HdrsSingle == {h \in HdrsAll : ~h.assign} \cup {HA(TRUE, "u", "u")}     \* the b
 HdrsLite == {H(TRUE, "u", "u", FALSE), H(TRUE, "u", "T", FALSE), H(TRUE, "F", "u", FALSE), H(TRUE, "u", "u", TRUE),
              H(FALSE, "u", "u", FALSE), H(FALSE, "u", "u", TRUE), HA(TRUE, "u", "u")}
 HdrsKw   == {H(TRUE, "u", k, FALSE) : k \in Flag}
-HdrsDc   == {H(TRUE, "u", "u", FALSE)}
 
 \* ---- program spaces (cfg: Doms = {"single2", ...}) ---------------------------------------------
 \* nc: classes in the chain; nf[i]: statements in class i; forms[i]: forms a dataclass at level i may use;
@@ -129,21 +128,23 @@ PairParentHdrs == {H(TRUE, "u", "u", FALSE), H(TRUE, "F", "u", FALSE), H(TRUE, "
                    HA(TRUE, "u", "u")}
 PairChildHdrs  == {H(TRUE, "u", "u", FALSE), H(TRUE, "u", "T", FALSE), H(TRUE, "F", "u", FALSE), H(FALSE, "u", "u", FALSE), H(FALSE, "u", "u", TRUE)}
 Dom_pair_w  == D(2, <<1, 1, 0>>, <<Core \ {"kwonly"}, Core, {}>>, <<HdrsLite \cup {H(TRUE, "F", "u", TRUE)}, HdrsLite, {}>>, <<N3, {"a", "b"}, {}>>)   \* witness runs
-Dom_pair_q  == D(2, <<2, 1, 0>>, <<{"ann", "annval", "fkwT", "finitF", "classvarN", "initvar", "prop"},
+Dom_pair_q  == D(2, <<2, 1, 0>>, <<{"ann", "annval", "fkwT", "finitF", "classvarN", "initvar"},
                                    {"ann", "annval", "fkwT", "finitF", "classvarN", "initvar", "prop", "unann"}, {}>>,
+                 <<PairParentHdrs, PairChildHdrs, {}>>, <<N3, {"a", "c"}, {}>>)
+Dom_pair_m  == D(2, <<2, 1, 0>>, <<{"ann", "annval", "fkwT", "prop", "classvarN", "initvarD"}, AllForms, {}>>, <<HdrsLite, HdrsLite, {}>>, <<N3, N3, {}>>)
+Dom_pair_t  == D(2, <<2, 2, 0>>, <<{"ann", "annval", "fkwT", "classvarN", "initvar"},
+                                   {"ann", "annval", "fkwT", "classvarN", "initvar", "prop", "kwonly"}, {}>>,
                  <<PairParentHdrs, PairChildHdrs, {}>>, <<N3, N3, {}>>)
-Dom_pair_m  == D(2, <<2, 1, 0>>, <<Core \ {"kwonly"}, AllForms, {}>>, <<HdrsLite, HdrsLite, {}>>, <<N3, N3, {}>>)
-Dom_pair_t  == D(2, <<2, 2, 0>>, <<{"ann", "annval", "fkwT", "finitF", "classvarN", "initvar", "prop"},
-                                   {"ann", "annval", "fkwT", "fkwFd", "finitF", "classvarN", "initvar", "prop", "unann", "kwonly"}, {}>>,
-                 <<PairParentHdrs, PairChildHdrs, {}>>, <<N3, N3, {}>>)
-Dom_pairhdr == D(2, <<1, 1, 0>>, <<Core, Core, {}>>, <<HdrsAll, HdrsAll, {}>>, <<N3, {"a", "b"}, {}>>)
+Dom_pairhdr == D(2, <<1, 1, 0>>, <<{"ann", "annval", "fkwT", "fkwFd", "classvarN", "kwonly"}, {"ann", "annval", "fkwT", "fkwFd", "classvarN", "kwonly"}, {}>>,
+                 <<HdrsAll, HdrsAll, {}>>, <<N3, {"a", "b"}, {}>>)
 \* -- three levels
 TripleHdrs == {H(TRUE, "u", "u", FALSE), H(TRUE, "F", "u", FALSE), H(FALSE, "u", "u", FALSE), H(FALSE, "u", "u", TRUE)}
 Dom_triple_q == D(3, <<1, 1, 1>>, <<{"ann", "annval", "fkwT", "classvarN"}, {"ann", "annval", "fkwT", "classvarN"},
                                     {"ann", "annval", "fkwT", "classvarN"}>>,
                   <<TripleHdrs, TripleHdrs, TripleHdrs>>, <<N3, {"a", "b"}, {"a", "b"}>>)
-Dom_triple_t == D(3, <<1, 1, 1>>, <<Core \ {"kwonly"}, Core \ {"kwonly"}, Core>>,
-                  <<HdrsLite, HdrsLite, HdrsLite>>, <<N3, {"a", "b"}, {"a", "b"}>>)
+TripleForms == {"ann", "annval", "fkwT", "finitF", "classvarN", "initvar", "prop"}
+Dom_triple_t == D(3, <<1, 1, 1>>, <<TripleForms, TripleForms, TripleForms \cup {"kwonly"}>>,
+                  <<TripleHdrs \cup {HA(TRUE, "u", "u")}, TripleHdrs \cup {HA(TRUE, "u", "u")}, TripleHdrs>>, <<N3, {"a", "b"}, {"a", "b"}>>)
 \* "target": the programs are not enumerated but read from the JSON file named by the environment variable
 \* C18_TARGETS (a list of chains written by the driver: seeded random programs beyond the enumerated bounds,
 \* counterexamples of witness runs, stored replay cases); TLC then only evaluates Impl and the reference on them.
